@@ -26,7 +26,7 @@ HARNESS = [("lang", ["mir_dump", "lmmm_run"], True)]
 COQ_TARGETS = ["theories/Props/C05_mir.vo", "theories/Extract/MirstExtract.vo"]
 PROPS = "C05_mir"
 DUMP_TIMEOUT_S = 300
-CDEPTH = 6           # how deep calls of closures may nest in an observed trace (Mirst/Follow.v)
+CDEPTH = 3           # how deep calls of closures may nest in an observed trace (Mirst/Follow.v)
 
 
 # ------------------------------------------------------------------------------------------------
@@ -131,11 +131,15 @@ class CGen:
         return "\n".join(out) + "\n"
 
 
-def _c18():
-    spec = importlib.util.spec_from_file_location("C18_for_mir_part", os.path.join(VERIF, "checks", "C18.py"))
+def _other_check(name):
+    spec = importlib.util.spec_from_file_location(name + "_for_mir_part", os.path.join(VERIF, "checks", name + ".py"))
     m = importlib.util.module_from_spec(spec)
     spec.loader.exec_module(m)
     return m
+
+
+def _c18():
+    return _other_check("C18")
 
 
 def shipped_files():
@@ -156,11 +160,25 @@ def gen_inputs(ck, quick):
     if os.path.isdir(d):
         for fn in sorted(os.listdir(d)):
             if fn.endswith(".mmm"):
-                out.append({"name": "corpus/" + fn, "src": open(os.path.join(d, fn)).read(), "path": None, "stream": "corpus"})
+                out.append({"name": "corpus/" + fn, "src": open(os.path.join(d, fn)).read(), "path": None,
+                            "stream": "witness" if fn.startswith("finding_") else "corpus"})
     fake = type("K", (), {})()
     fake.rng = rng.fork("lmmm")
     for i, (p, _rows) in enumerate(lmmm.gen_cases(fake, n_l, 1, tag="mir", stateful_arms_share=2)):
-        out.append({"name": "lmmm%d" % i, "src": lmmm.pp_prog(p), "path": None, "stream": "lmmm"})
+        # every 4th program is printed with non-integer delay maxima (the compiler truncates them, in the skeleton and in the code)
+        out.append({"name": "lmmm%d" % i, "src": lmmm.pp_prog(p, {('opt', 'frac_delay'): True} if i % 4 == 3 else None),
+                    "path": None, "stream": "lmmm"})
+    try:
+        # type-changing near misses of the first-order programs (checks/C03.py): the ones the compiler still accepts
+        c03 = _other_check("C03")
+        rn = rng.fork("nearmiss")
+        base = [it for it in out if it["stream"] == "lmmm"]
+        for i, it in enumerate(base[:len(base) // 2]):
+            kind, src = c03.near_miss(rn.fork(i), it["src"])
+            if src:
+                out.append({"name": "nearmiss%d-%s" % (i, kind), "src": src, "path": None, "stream": "nearmiss"})
+    except Exception as ex:
+        log("mir_part: C03 near-miss generator unavailable: %s" % ex)
     rm = rng.fork("match")
     for i in range(n_m):
         out.append({"name": "match%d" % i, "src": lmmm.gen_match_source(rm.fork(i)), "path": None, "stream": "match"})
@@ -242,21 +260,52 @@ def dump_all(exe, items, shards=None):
     return res
 
 
-def run_model(exe, blocks):
-    """blocks: list of (id, status, lines) -> {id: answer words}"""
+def _model_call(exe, blocks, timeout):
     text = []
     for i, st, lines in blocks:
         text.append("@@BEGIN %s %s" % (i, st))
         text.extend(lines)
         text.append("@@END %s" % i)
-    rc, out, _ = vplib.sh([exe], input="\n".join(text) + "\n", timeout=600)
+    rc, out, _ = vplib.sh([exe], input="\n".join(text) + "\n", timeout=timeout)
     ans = {}
     for l in out.split("\n"):
         if l.startswith("#"):
             t = l[1:].split(" ")
             ans[t[0]] = t[1:]
-    if rc != 0 or len(ans) != len(blocks):
-        raise RuntimeError("model driver failed rc=%s answers=%d/%d: %s" % (rc, len(ans), len(blocks), out[-300:]))
+    return rc, ans, out
+
+
+def run_model(exe, blocks, stats=None):
+    """blocks: list of (id, status, lines) -> {id: answer words}.  Chunks run in parallel; a chunk that does not finish is
+    halved until the slow program is alone, which is then judged without its observed traces (counted in stats)."""
+    ans = {}
+
+    def work(chunk, timeout=45):
+        rc, a, out = _model_call(exe, chunk, timeout)
+        if rc == 0 and len(a) == len(chunk):
+            return a
+        if rc != 124:
+            raise RuntimeError("model driver failed rc=%s answers=%d/%d: %s" % (rc, len(a), len(chunk), out[-300:]))
+        if len(chunk) > 1:
+            h = len(chunk) // 2
+            r = work(chunk[:h], timeout)
+            r.update(work(chunk[h:], timeout))
+            return r
+        i, st, lines = chunk[0]
+        rc, a, out = _model_call(exe, [(i, st, [l for l in lines if not l.startswith("S ")])], 300)
+        if rc != 0 or len(a) != 1:
+            raise RuntimeError("model driver failed on one program rc=%s: %s" % (rc, out[-300:]))
+        if stats is not None:
+            stats["trace_follow_timeouts"] = stats.get("trace_follow_timeouts", 0) + 1
+        return a
+    n = max(1, min(vplib.NPROC, 8))
+    size = max(20, min(150, len(blocks) // (2 * n) + 1))
+    chunks = [blocks[i:i + size] for i in range(0, len(blocks), size)]
+    with concurrent.futures.ThreadPoolExecutor(max_workers=n) as ex:
+        for a in ex.map(work, chunks):
+            ans.update(a)
+    if len(ans) != len(blocks):
+        raise RuntimeError("model driver answered %d of %d programs" % (len(ans), len(blocks)))
     return ans
 
 
@@ -402,8 +451,60 @@ def explain_fun(funs, f):
     _, ret = walk(0, 0, 0)
     if not ret: raise _Reject("the function falls off its end")
     for i, (o, c) in enumerate(tops):
-        if used[i] != (3 if c[0] == 'E' else 1):
+        if sk_size(c) != 0 and used[i] != (3 if c[0] == 'E' else 1):
             raise _Reject("cell %d (%s at offset %d) of %s is %s" % (i, c, o, f["skels"], "never used" if used[i] == 0 else "used by only one of getstate / retfeed"))
+
+
+def rejected_functions(lines):
+    """[(function dict, reason)] for every function the python restatement of the walk rejects"""
+    funs = parse_dump(lines)
+    out = []
+    for f in funs:
+        try:
+            explain_fun(funs, f)
+        except _Reject as e:
+            out.append((f, str(e)))
+        except Exception as ex:
+            out.append((f, "error: %s" % ex))
+    return out
+
+
+# ---- known finding F64 (class generic-self-sized-before-resolution) ----------------------------------------------------
+# fn f(x){ self }  instantiated at a multi-word type: the monomorphised instance publishes a Feed cell sized from the still
+# unresolved type of `self` (1 word) while its getstate / retfeed move the words of the resolved type.
+F64 = {"id": "F64", "cls": "generic-self-sized-before-resolution",
+       "witness": "finding_F64_generic_self.mmm"}
+
+
+def in_class_F64(lines):
+    """every rejected function is a `_mono_` instance whose only fault is a getstate / retfeed word size that differs from
+    the size of the Feed cell it publishes at offset 0"""
+    try:
+        bad = rejected_functions(lines)
+    except Exception:
+        return False
+    if not bad:
+        return False
+    for f, _why in bad:
+        if "_mono_" not in f["label"]:
+            return False
+        ws = set(int(a[0]) for b in f["blocks"] for (_d, n, a) in b if n in ("GetState", "ReturnFeed"))
+        kids = f["skel"][1] if f["skel"][0] == 'F' else []
+        if not kids or kids[0][0] != 'E' or len(ws) != 1 or kids[0][1] in ws:
+            return False
+        # with the Feed cell resized to what the code moves the function must be fine (sizes of the later cells shift, so
+        # only check a function whose Feed is its only cell or recompute: re-run the walk on the patched skeleton)
+        g = dict(f)
+        g["skel"] = ('F', [('E', ws.pop())] + list(kids[1:]))
+        g["skels"] = f["skels"]
+        try:
+            # calls inside g see the other functions' skeletons unchanged
+            explain_fun(parse_dump(lines), g)
+        except _Reject:
+            return False
+        except Exception:
+            return False
+    return True
 
 
 def explain(lines):
@@ -506,7 +607,7 @@ def run_part(ck, quick=True):
     cov = {"programs": 0, "accepted": 0, "rejected": 0, "compile_errors": 0, "compiler_panics": 0, "dumper_crashes": 0,
            "functions": 0, "blocks": 0, "state_events": 0, "branches": 0, "branches_with_state_in_arms": 0,
            "closure_calls": 0, "closures_with_state_programs": 0, "distinct_skeletons": 0,
-           "accepted_with_shared_cells_recursion": 0, "traces_checked": 0, "programs_traced": 0, "programs_traced_with_closure_state": 0, "per_stream": {}}
+           "accepted_with_shared_cells_recursion": 0, "rejected_in_known_class_F64": 0, "traces_checked": 0, "trace_follow_timeouts": 0, "programs_traced": 0, "programs_traced_with_closure_state": 0, "per_stream": {}}
 
     # ---- regression dumps first: old compiler output must be rejected, current one accepted --------------------
     cd = corpus_dumps()
@@ -547,7 +648,7 @@ def run_part(ck, quick=True):
         by_stream.setdefault(items[i]["stream"], []).append(i)
     chosen = []
     for s, l in sorted(by_stream.items()):
-        share = len(l) if s in ("corpus",) else max(8, n_trace * len(l) // max(1, len(cand)))
+        share = len(l) if s in ("corpus", "witness") else max(8, n_trace * len(l) // max(1, len(cand)))
         pool = list(l)
         while pool and share > 0:
             chosen.append(pool.pop(rs.below(len(pool))))
@@ -571,7 +672,7 @@ def run_part(ck, quick=True):
             cov["programs_traced"] += 1
             cov["programs_traced_with_closure_state"] += 1 if cl else 0
     blocks = [(str(i), dumps[i][0], dumps[i][1] + extra.get(i, [])) for i in ok_idx]
-    ans = run_model(model, blocks) if blocks else {}
+    ans = run_model(model, blocks, cov) if blocks else {}
     seen_sk = set()
     reported = 0
     for i in ok_idx:
@@ -611,6 +712,15 @@ def run_part(ck, quick=True):
                              {"source": it["src"], "path": it["path"], "name": it["name"], "sample": k,
                               "observed": extra[i][k] if 0 <= k < len(extra[i]) else None,
                               "dsp_skeleton": vm.get("skel"), "how": how}))
+        elif a[0] == "reject" and in_class_F64(dumps[i][1]):
+            cov["rejected"] += 1
+            cov["rejected_in_known_class_F64"] += 1
+            fd = [f_ for f_ in vplib.known_findings("C05") if f_["id"] == F64["id"]]
+            detail = it["src"].replace("\n", " ")[:160] + " -> " + explain(dumps[i][1])[:160]
+            if fd and hasattr(ck, "known"):
+                ck.known(fd[0], detail)
+            elif not cov.get("F64_example"):
+                cov["F64_example"] = detail
         elif a[0] == "reject":
             cov["rejected"] += 1
             if reported < 5:
@@ -636,6 +746,20 @@ def run_part(ck, quick=True):
         else:
             viol.append(("MIR state checker: the dump of the compiler's MIR is not understood by the model driver (%s)" % " ".join(a),
                          {"no_input": True, "name": it["name"], "source": it["src"][:2000]}))
+        if it["stream"] == "witness" and a[0] == "reject":
+            # the recorded finding replayed on the real VM: an access that is not a cell of the published layout
+            vm = ((dyn.get(i) or {}).get("vm") or {}) if "crash" not in (dyn.get(i) or {"crash": 1}) else {}
+            off = []
+            for smp in vm.get("samples", []):
+                if "trace" in smp and vm.get("skel"):
+                    off += lmmm.events_hit_cells(vm["skel"], smp["trace"])
+            cov.setdefault("finding_witness_on_the_real_vm", {})[it["name"]] = (
+                "state access outside the published cells: %s (skeleton %s)" % (off[:2], vm.get("skel")) if off
+                else "no offending access observed")
+        if it["stream"] == "witness" and not (a[0] == "reject" and in_class_F64(dumps[i][1])):
+            # a recorded finding that stops reproducing is noticed (not a violation of the property)
+            cov.setdefault("finding_witness_not_reproduced", []).append(it["name"] + ": " + " ".join(a))
+            log("mir_part: the witness %s of a recorded finding is now judged: %s" % (it["name"], " ".join(a)))
         if i % 97 == 5:
             ck.sample({"name": it["name"], "verdict": " ".join(a), "skeletons": [f["skels"] for f in funs][:6]})
     # ---- the property's run-time clauses on the sampled runs (independent of the model) ----------------------------
@@ -680,6 +804,9 @@ class _DevCheck:
 
     def add(self, key, n=1):
         self.coverage[key] = self.coverage.get(key, 0) + n
+
+    def known(self, finding, detail):
+        print("KNOWN-FINDING: property=C05 %s %s [e.g. %s]" % (finding["id"], finding["text"], detail), flush=True)
 
 
 if __name__ == "__main__":
